@@ -73,6 +73,16 @@ func verifC15_Fanout() {
 			verifCover("re-subscribed-with-another-qos")
 		}
 		b.topicMgr.subscribe([]string{filter}, []byte{subQoS[i]}, ids[i])
+		// a second, overlapping filter of the same client that matches the topic as well: the
+		// client is eligible if ANY of its matching subscriptions has a sufficient QoS
+		if matching[i] && verifBool("secondOverlappingFilter") {
+			q2 := byte(verifInt("secondFilterQoS", 0, 1))
+			b.topicMgr.subscribe([]string{"a/#"}, []byte{q2}, ids[i])
+			if q2 > subQoS[i] {
+				subQoS[i] = q2
+			}
+			verifCover("overlapping-filters-of-one-client")
+		}
 	}
 	// delivery is independent of which other clients are or were subscribed: another client
 	// subscribes to sibling / deeper filters sharing the prefix and leaves again
